@@ -1,6 +1,6 @@
 //! C14 — onions: the REAL construction / peeling / failure attribution on generated routes.
 //! ops (consumed by the Lean driver `drv_c14 c14`, answers compared line by line):
-//!   build <L> <prng-seed> <assoc-data> <n> (<shared-secret> <payload>)*  → <hop_data> <hmac> | err
+//!   build <L|std> <prng-seed> <assoc-data> <n> (<shared-secret> <payload>)*  → <hop_data> <hmac> | err
 //!        real: public `create_payment_onion`; shared secrets / payload bytes through verif_hooks::onion
 //!   peel <shared-secret> <assoc-data> <hmac> <hop_data>  → fwd amt= cltv= scid= <next hmac> <next hop_data>
 //!        | final amt= … | err BadHmac        real: public `peel_payment_onion` with that hop's node key
@@ -126,7 +126,7 @@ fn main() {
 	let kms: Vec<KeysManager> = (0..MAX_NODES).map(|i| KeysManager::new(&[(i + 1) as u8; 32], 1, 1, true)).collect();
 	let ids: Vec<PublicKey> = kms.iter().map(|k| k.get_node_id(Recipient::Node).unwrap()).collect();
 	let ctx = Ctx { secp, kms, ids };
-	let n_routes = (if args.thorough { 1500 } else { 110 }) * args.scale;
+	let n_routes = (if args.thorough { 5000 } else { 450 }) * args.scale;
 	let n_corrupt = if args.thorough { 24 } else { 8 };
 	let mut max_hops_seen = 0usize;
 
@@ -155,7 +155,7 @@ fn main() {
 		let (payloads, _first_amt, _first_cltv) = match vh::payloads(&c.path, &c.rof, c.height, &c.keysend) { Ok(x) => x, Err(e) => { rec.discarded += 1; rec.notes.insert("discard".into(), format!("{:?}", e)); continue; } };
 		let total: usize = payloads.iter().map(|p| p.len() + 32).sum();
 		let built = guarded(AssertUnwindSafe(|| create_payment_onion(&ctx.secp, &c.path, &c.session, &c.rof, c.height, &c.hash, &c.keysend, None, c.seed)));
-		let mut op = format!("build {} {} {} {}", L, hex(&c.seed), hex(&c.hash.0), n);
+		let mut op = format!("build std {} {} {}", hex(&c.seed), hex(&c.hash.0), n);
 		for i in 0..n { op.push_str(&format!(" {} {}", hex(&ss[i]), hex(&payloads[i]))); }
 		let onion = match built {
 			Err(p) => { rec.case(&op, &format!("panic {}", p), "build:panic", true); continue; },
@@ -192,7 +192,7 @@ fn main() {
 							if *short_channel_id != c.path.hops[i + 1].short_channel_id || info.outgoing_amt_msat != exp_amt || info.outgoing_cltv_value != exp_cltv {
 								rec.oracle_fail(format!("hop {} of route {} got scid/amt/cltv {}/{}/{} expected {}/{}/{}", i, r, short_channel_id, info.outgoing_amt_msat, info.outgoing_cltv_value, c.path.hops[i + 1].short_channel_id, exp_amt, exp_cltv));
 							}
-							if onion_packet.hop_data.len() != L { rec.oracle_fail(format!("forwarded packet size {} at hop {}", onion_packet.hop_data.len(), i)); }
+							if onion_packet.hop_data.len() != onion.hop_data.len() { rec.oracle_fail(format!("forwarded packet size {} at hop {}", onion_packet.hop_data.len(), i)); }
 							cur = onion_packet.clone();
 						},
 						PendingHTLCRouting::Receive { .. } | PendingHTLCRouting::ReceiveKeysend { .. } => {
@@ -215,6 +215,22 @@ fn main() {
 		}
 		if !ok { continue; }
 
+		// ---- sweep (first routes only): EVERY byte of hop_data (every bit in the thorough tier), every bit of
+		//      hmac and payment hash, at one hop ----------------------------------------------------------
+		if r < (if args.thorough { 3 } else { 1 }) {
+			let i = rng.below(n as u64) as usize;
+			let mut targets: Vec<(u8, usize)> = vec![];
+			for byte in 0..onion.hop_data.len() { if args.thorough { for b in 0..8 { targets.push((0, byte * 8 + b)); } } else { targets.push((0, byte * 8 + rng.below(8) as usize)); } }
+			for bit in 0..256 { targets.push((1, bit)); targets.push((2, bit)); }
+			for (what, bit) in targets {
+				let mut p = packets[i].clone(); let mut hash = c.hash;
+				match what { 0 => flip(&mut p.hop_data, bit), 1 => flip(&mut p.hmac, bit), _ => flip(&mut hash.0, bit) }
+				let op = format!("peel {} {} {} {}", hex(&ss[i]), hex(&hash.0), hex(&p.hmac), hex(&p.hop_data));
+				let res = match real_peel(&ctx, &c, i, p, hash) { Err(pn) => format!("panic {}", pn), Ok(Err(e)) => format!("err {}", e), Ok(Ok(info)) => show_peeled(&info) };
+				if !res.starts_with("err ") { rec.oracle_fail(format!("corrupted packet accepted at hop {} of route {} (sweep kind {} bit {})", i, r, what, bit)); }
+				rec.case(&op, &res, "corrupt:sweep", true);
+			}
+		}
 		// ---- single-bit corruptions in flight: hop_data / hmac / payment hash (model + real),
 		//      version / ephemeral key (real only: ECDH is not modelled) -----------------------------
 		for _ in 0..n_corrupt {
